@@ -134,6 +134,12 @@ def run_expected(run: Run) -> None:
                schedules(2, True), "gen3"))
     for reps, max_steps in (((2, 2),) if quick else ((1, 4), (2, 3), (3, 2), (2, 4))):
         us.append((4, picks4, "superadditive_cached", "l1_norm", max_steps, reps, schedules(reps, True), f"exact4-r{reps}-s{max_steps}"))
+    # norms that are not submodular in the revealed set (l2 / l-infinity), several steps, games with complementarities
+    small = [(1, "p1", [0]), (2, "round-robin", [0, 1])]
+    for gi, gap_name in enumerate(("l2_norm", "linf_norm")):
+        us.append((4, picks4[gi:] + picks4[:gi], "superadditive_cached", gap_name, 4 if quick else 6, 1 + gi, small, f"exact4-{gap_name}"))
+        us.append((4, [("GEN", "graph_random", 4, seed + gi), ("GEN", "xos", 4, seed + 3 + gi)], "superadditive", gap_name, 3 if quick else 5, 2, small,
+                   f"gen4-{gap_name}"))
     total = fanout(expected_unit, sorted(us, key=lambda u: -(u[0] ** 3 * u[4] * len(u[6]))), procs=8, chunk=1)
     total.count("expected_greedy_configurations", len(us))
     run.add(total)
